@@ -396,6 +396,29 @@ def build(active_known=frozenset()):
               "knows it is syntax-quoting; afterwards both stacks are as before", sq_post)
     add_template_readers(pack)
     add_resolution(pack)
+
+    # The contracts above speak of "the symbols the expander emits" through the module's own constants (rd._SEQ, rd._VECTOR, ...), so
+    # they cannot see what those constants *are*.  The template is code that runs where the template is used: "preserving the enclosing
+    # collection type" needs every helper it calls to be the basilisp.core function of that name, whatever the use site has shadowed or
+    # excluded - i.e. each constant is the fully qualified symbol.  A complete enumeration over the seven module constants.
+    def helper_symbols(tier, seed):
+        import os
+
+        from basilisp.lang import symbol as sym_
+        from pyvc.run import REPLAY_DIR, run_snippet
+
+        want = {"_SEQ": "seq", "_CONCAT": "concat", "_LIST": "list", "_APPLY": "apply", "_VECTOR": "vector", "_HASH_MAP": "hash-map", "_HASH_SET": "hash-set"}
+        wrong = [f"{c_} is {getattr(rd, c_, None)!r}" for c_, n_ in want.items() if getattr(rd, c_, None) != sym_.symbol(n_, ns="basilisp.core")]
+        rec = {"name": "every helper the syntax-quote expander emits (seq, concat, list, apply, vector, hash-map, hash-set) is the symbol qualified with basilisp.core"
+                       + (f" [{'; '.join(wrong)}]" if wrong else ""),
+               "kind": "helper-symbols", "verdict": "refuted" if wrong else "proved", "backend": "enumeration", "time_s": 0.0, "line": 0}
+        if wrong:
+            p_ = os.path.join(REPLAY_DIR, "C09", "helper_symbols.py")
+            okr, outp = run_snippet("# replay for property C09\n# failed obligation: " + rec["name"] + "\n" + HELPER_REPLAY, p_)
+            rec.update(replay=p_, reproduced=okr, replay_output=outp[-1500:], model={"wrong": wrong})
+        return [{"key": "helper-symbols:basilisp.lang.reader", "file": "src/basilisp/lang/reader.py", "lines": [0, 0], "error": None, "obligations": [rec], "extra": True, "time_s": 0.0}]
+
+    pack.extra.append(helper_symbols)
     for c in pack.contracts:
         if c.replay_ is None:
             c.replay(lambda m, ctx, ob: SQ_REPLAY)
@@ -653,7 +676,9 @@ va = rt.Var.intern(a, S('mine'), 2)
 a.add_alias(b, S('bb'))
 a.add_refer(S('shared'), vb)
 a.add_refer(S('renamed'), vb)
-rt.Var.intern(rt.Namespace.get_or_create(S(rt.CORE_NS)), S(rt.NS_VAR_NAME), a, dynamic=True)
+nsv = rt.Var.intern(rt.Namespace.get_or_create(S(rt.CORE_NS)), S(rt.NS_VAR_NAME), a, dynamic=True)
+from basilisp.lang import map as lmap
+rt.push_thread_bindings(lmap.map({nsv: a}))   # (a thread binding of *ns* may already exist in this process: bind on top of it)
 bad = []
 def chk(desc, got, want):
     if got != want:
@@ -687,6 +712,29 @@ except BaseException as e:
 for line in bad[:10]:
     print(line)
 print('REPRODUCED' if bad else 'not reproduced')
+'''
+
+
+HELPER_REPLAY = r'''
+import subprocess, sys, tempfile, os
+src = """(ns c09.helpers (:refer-basilisp :exclude [vector list seq concat apply hash-map hash-set]))
+(def out (atom []))
+(defn t [label f] (swap! out conj [label (try (f) (catch python/Exception e (str "raised " (python/type e))))]))
+(t "vector" (fn [] (let [vector (fn [& _] :shadowed)] `[1 ~(+ 1 1) ~@[3 4]])))
+(t "list" (fn [] (let [list (fn [& _] :shadowed) seq (fn [& _] :shadowed) concat (fn [& _] :shadowed)] `(1 ~(+ 1 1) ~@[3 4]))))
+(t "set" (fn [] (let [hash-set (fn [& _] :shadowed) apply (fn [& _] :shadowed)] `#{1 ~(+ 1 1)})))
+(t "map" (fn [] (let [hash-map (fn [& _] :shadowed)] `{:a ~(+ 1 1)})))
+(t "vector with the names excluded from the namespace" (fn [] `[~@[1 2] :end]))
+(println (pr-str @out))
+"""
+d = tempfile.mkdtemp()
+p = os.path.join(d, "helpers.lpy")
+open(p, "w").write(src)
+out = subprocess.run([sys.executable, "-m", "basilisp.cli", "run", p], capture_output=True, text=True, timeout=280)
+line = (out.stdout.strip().splitlines() or [out.stderr[-400:]])[-1]
+print(line)
+want = '[["vector" [1 2 3 4]] ["list" (1 2 3 4)] ["set" #{1 2}] ["map" {:a 2}] ["vector with the names excluded from the namespace" [1 2 :end]]]'
+print("REPRODUCED" if line.replace("#{2 1}", "#{1 2}") != want else "not reproduced")
 '''
 
 
